@@ -627,6 +627,15 @@ def instantiate_fn(fs, item, em):
                 cord = int(cord or 1)
                 cand = [x for x in cls if x["callee"] == cname]
                 if len(cand) < cord:
+                    # `any` <-> `all`: the same predicate closure handed to the twin adapter (a classic one-token change).
+                    # The contract of the closure is about the predicate, not the adapter, so it is applied to the twin.
+                    twin = {"any": "all", "all": "any"}.get(cname)
+                    if twin and ("%s#%d" % (twin, cord)) not in fs.closures and (cord != 1 or twin not in fs.closures):
+                        cand2 = [x for x in cls if x["callee"] == twin]
+                        if len(cand2) >= cord:
+                            cand = [None] * (cord - 1) + [cand2[cord - 1]]
+                            log.append("closure contract %s applied to the closure now passed to `%s` (callee changed)" % (n, twin))
+                if len(cand) < cord:
                     if cand:
                         degraded.append("closure %s not found (closures in this function: %s)" % (n, [x["callee"] for x in cls]))
                     else:
@@ -854,9 +863,13 @@ def instantiate_fn(fs, item, em):
                 if not found:
                     _gone("extend rule: statement %d not found" % n)
             elif rule in ("iter_any", "iter_all", "iter_position", "iter_find_map"):
-                meth = rule[5:]
+              found = False
+              for meth in [rule[5:]] + ([{"any": "all", "all": "any"}[rule[5:]]] if rule[5:] in ("any", "all") and not any(r2[0] == "iter_" + {"any": "all", "all": "any"}[rule[5:]] for r2 in fs.rules) else []):
+                if found:
+                    break
+                if meth != rule[5:]:
+                    log.append("R-iter-%s applied where the template expected `.%s(` (callee changed)" % (meth, rule[5:]))
                 cnt = 0
-                found = False
                 k = lo
                 while k + 5 < hi:
                     if (toks[k].text == "." and toks[k + 1].text == "iter" and toks[k + 2].text == "(" and toks[k + 3].text == ")"
@@ -893,7 +906,7 @@ def instantiate_fn(fs, item, em):
                             found = True
                             break
                     k += 1
-                if not found:
+              if not found:
                     _gone("%s rule: occurrence %d not found" % (rule, n))
             elif rule == "fold":
                 # RECV.into_iter().fold(INIT, CL)   (R-fold: definition of Iterator::fold)
